@@ -5,24 +5,11 @@
 /* documented identifier range of sockets, contexts, dialers, listeners and
  * pipes: positive 31-bit */
 #define SC_ID_OK(id) ((id) >= 1u && (id) <= 0x7fffffffu)
-/* a process-wide static id map M (struct lvalue) in a well-formed state: the
- * representation invariant of modules/idhash (IDM_SCALAR + pointer shape), the
- * free ghost equations its contracts want, the registry bound, cursor in
- * range, below the implementation limit on live ids.  The RANGE
- * (id_min_val / id_max_val) is NOT a precondition: it is whatever the static
- * initialiser of the real file says. */
-#define SC_MAP_SHAPE(M)                                                     \
-	((((M).id_cap == 0 && (M).id_entries == NULL) ||                        \
-	     ((M).id_cap != 0 && (M).id_cap <= IDM_MAXCAP &&                    \
-	         __CPROVER_is_fresh((M).id_entries, (size_t) (M).id_cap * IDM_ENT_SZ))) && \
-	    IDM_SCALAR(&(M)))
-#define SC_MAP_PRE(M)                                                       \
-	(SC_MAP_SHAPE(M) && IDM_GHOST_PRE(&(M)) && IDM_REG_PRE(&(M)) &&         \
-	    IDM_CURSOR_OK(&(M)) && (M).id_count < IDM_MAXCOUNT)
-/* frame of an operation that may insert into / remove from the static map M */
-#define SC_MAP_TARGETS(M) (M), VP_HEAP_GHOSTS, g_slot, g_found, IDM_REG_TARGETS
-/* the entry (id -> obj) sits in slot g_slot of M */
-#define SC_MAP_HAS(M, id, obj) (g_slot < (M).id_cap && (M).id_entries[g_slot].key == (uint64_t) (id) && (M).id_entries[g_slot].val == (void *) (obj))
-/* the map is untouched: same table, same scalars, ghost slot as before */
-#define SC_MAP_SAME(M) (IDM_ARRAY_KEPT(&(M)) && (M).id_count == OLD((M).id_count) && (M).id_load == OLD((M).id_load) && ((g_k < (M).id_cap) ==> IDM_SLOT_SAME(&(M))))
+/* ghost groups of the id allocator / removal model */
+#define G_IDA g_ida_calls, g_ida_map, g_ida_val, g_ida_issued
+#define G_IDR g_idr_calls, g_idr_map, g_idr_id, g_idr_at_free
+/* the last allocator call registered (issued id -> obj) in map M and the id is in the documented range */
+#define SC_ISSUED(M, id, obj) (g_ida_calls == __CPROVER_old(g_ida_calls) + 1 && !g_ida_fail && g_ida_map == &(M) && g_ida_val == (void *) (obj) && (id) == g_ida_issued && SC_ID_OK(id))
+/* exactly one removal, of `id` from M */
+#define SC_REMOVED(M, id) (g_idr_calls == __CPROVER_old(g_idr_calls) + 1 && g_idr_map == &(M) && g_idr_id == (uint64_t) (id))
 #endif
